@@ -165,7 +165,52 @@ Section Conform.
     - inversion H. reflexivity.
   Qed.
 
-  Lemma none_tail_conf ts : forall r, none_tail_t ts = Ok r ->
+  Lemma omapM_nt_all {B} (g: sfield -> option B) (q: sfield -> B -> bool) fds cs :
+    (forall f c, In f fds -> g f = Some c -> q f c = true) -> omapM g fds = Some cs -> nt_all q fds cs = true.
+  Proof.
+    revert cs. induction fds as [|f r IH]; intros cs Hq H.
+    - inversion H. reflexivity.
+    - cbn [omapM] in H. destruct (g f) as [c|] eqn:Eg; [|discriminate H].
+      destruct (omapM g r) as [ys|] eqn:Er; [|discriminate H]. inversion H; subst.
+      cbn [nt_all]. rewrite (Hq f c (or_introl eq_refl) Eg). apply IH; [|reflexivity].
+      intros f0 c0 Hf0. apply Hq. right. exact Hf0.
+  Qed.
+
+  Lemma omapM_tuple_conf (g: sty -> option pv) ts cs :
+    Forall (fun t => forall c, g t = Some c -> conf_g o E c t = true) ts -> omapM g ts = Some cs ->
+    (fix go (ts: list sty) (l: list pv) {struct l} : bool :=
+       match ts, l with
+       | [], [] => true
+       | t' :: ts', x :: l' => conf_g o E x t' && go ts' l'
+       | _, _ => false end) ts cs = true.
+  Proof.
+    intros HF. revert cs. induction HF as [|t1 ts H1 Hts IH]; intros cs Em.
+    - inversion Em. reflexivity.
+    - cbn [omapM] in Em. destruct (g t1) as [c1|] eqn:E1; [|discriminate Em].
+      destruct (omapM g ts) as [cs1|] eqn:E2; [|discriminate Em]. inversion Em.
+      rewrite (H1 c1 eq_refl). apply (IH cs1 eq_refl).
+  Qed.
+
+  (* a constant is an instance of its type *)
+  Lemma const_ty_conf_n n : forall t c, const_ty_n E n t = Some c -> conf_g o E c t = true.
+  Proof.
+    induction n as [|n IHn].
+    all: induction t as [ | | | | | | m' | k' | e' | t' IHt | fr' t' IHt | t' IHt | ts IHts | kt IHkt vt IHvt | t' IHt | c' | c' | c' ]
+      using sty_ind'; intros c H; rewrite const_ty_n_unfold in H; try discriminate H.
+    all: try (inversion H; reflexivity).
+    all: try (match type of H with (match omapM ?g ?l with _ => _ end = _) => destruct (omapM g l) as [cs|] eqn:Em end; [|discriminate H];
+              inversion H; rewrite conf_unfold; apply (omapM_tuple_conf _ _ _ IHts Em)).
+    destruct (sfind E KNamed c') as [k|] eqn:Ef; [|discriminate H].
+    destruct (has_default (sc_fields k)); [discriminate H|].
+    match type of H with (match ?X with _ => _ end = _) => destruct X as [cs|] eqn:Em end; [|discriminate H].
+    inversion H. rewrite conf_unfold, String.eqb_refl, Ef. cbn [andb].
+    refine (omapM_nt_all _ _ _ _ _ Em). intros f c0 _ Hc. apply (IHn _ _ Hc).
+  Qed.
+
+  Lemma const_ty_conf t c : const_ty E t = Some c -> conf_g o E c t = true.
+  Proof. apply const_ty_conf_n. Qed.
+
+  Lemma none_tail_conf ts : forall r, none_tail_t E ts = Ok r ->
     (fix go (ts: list sty) (l: list pv) {struct l} : bool :=
        match ts, l with
        | [], [] => true
@@ -174,11 +219,9 @@ Section Conform.
   Proof.
     induction ts as [|t ts IH]; intros r H.
     - cbn in H. inversion H. reflexivity.
-    - cbn [none_tail_t] in H. destruct (const_ty t) as [c|] eqn:Ec; [|discriminate].
-      destruct (none_tail_t ts) as [ys|]; [|discriminate]. cbn [bind] in H. inversion H; subst.
-      rewrite (IH ys eq_refl). rewrite andb_true_r.
-      destruct t; try discriminate; [inversion Ec; reflexivity|].
-      destruct ts0; [|discriminate]. inversion Ec. reflexivity.
+    - cbn [none_tail_t] in H. destruct (const_ty E t) as [c|] eqn:Ec; [|discriminate].
+      destruct (none_tail_t E ts) as [ys|]; [|discriminate]. cbn [bind] in H. inversion H; subst.
+      rewrite (IH ys eq_refl). rewrite andb_true_r. apply (const_ty_conf _ _ Ec).
   Qed.
 
   Lemma sfind_wf kd c k : sfind E kd c = Some k ->
@@ -189,16 +232,11 @@ Section Conform.
     apply andb_prop in Hw. rewrite Hk in Hw. exact Hw.
   Qed.
 
-  Lemma const_ty_conf t c : const_ty t = Some c -> conf_g o E c t = true.
-  Proof.
-    destruct t as [ | | | | | | | | | | | | [|t1 ts1] | | t' | | | ]; intros H; try discriminate H; inversion H; reflexivity.
-  Qed.
-
   (* a successful TypedDict walk returns a conforming dict, keys in canonical order *)
   Lemma td_conf {D} (run: sfield -> D -> res pv) ms es fds R :
     names_nodup fds = true ->
     (forall f d y, In f fds -> look es (sf_name f) = Some d -> run f d = Ok y -> conf_g o E y (sf_ty f) = true) ->
-    td_go run konst_t ms es (td_order fds) = Ok R ->
+    td_go run (konst_t E) ms es (td_order fds) = Ok R ->
     nodup_keys R && forallb (fun p => key_declared fds (fst p)) R &&
     (let cs : list (pv * (sty -> bool)) := map (fun p => match p with (key, x) => (key, conf_g o E x) end) R in
      forallb (fun f => match look cs (sf_name f) with Some cx => cx (sf_ty f) | None => sf_opt f end) fds) &&
@@ -212,12 +250,12 @@ Section Conform.
     - cbv zeta. apply forallb_forall. intros f Hf. rewrite (look_map (conf_g o E) R).
       destruct (td_go_look _ _ _ _ _ _ Hno HR f (In_td_order_iff f fds Hf)) as [[Hnone Hl] | [y [Hsome Hl]]];
         rewrite Hl; cbn [option_map]; unfold td_field in *.
-      + destruct (sf_opt f); [reflexivity|]. destruct (konst_t f); [discriminate Hnone|].
+      + destruct (sf_opt f); [reflexivity|]. destruct ((konst_t E) f); [discriminate Hnone|].
         destruct (look es (sf_name f)); discriminate Hnone.
       + destruct (sf_opt f).
         * destruct (look es (sf_name f)) as [d|] eqn:El; [|discriminate Hsome]. inversion Hsome as [Hy].
           apply (Hrun f d y Hf El Hy).
-        * destruct (konst_t f) as [c|] eqn:Ek.
+        * destruct ((konst_t E) f) as [c|] eqn:Ek.
           -- inversion Hsome; subst. apply const_ty_conf. exact Ek.
           -- destruct (look es (sf_name f)) as [d|] eqn:El; [|discriminate Hsome]. inversion Hsome as [Hy].
              apply (Hrun f d y Hf El Hy).
@@ -225,7 +263,7 @@ Section Conform.
   Qed.
 
   Lemma td_nondict_conf c k r : sfind E KTyped c = Some k ->
-    td_nondict konst_t k.(sc_fields) = Ok r -> conf_g o E r (STyped c) = true.
+    td_nondict (konst_t E) k.(sc_fields) = Ok r -> conf_g o E r (STyped c) = true.
   Proof.
     intros Ef H. unfold td_nondict in H.
     match type of H with (bind ?X _ = _) => destruct X as [R|] eqn:Em end; [|discriminate H]. cbn [bind] in H.
@@ -289,7 +327,7 @@ Section Conform.
       destruct n as [|n']; [discriminate H|].
       match type of H with (bind ?X _ = _) => destruct X as [l|] eqn:Em end; [|discriminate H]. cbn [bind] in H. inversion H.
       rewrite conf_unfold. rewrite String.eqb_refl, Ef. cbn [andb].
-      refine (nt_items_all (fun f y => conf_g o E y (sf_ty f)) (fun f => default_ok KNamed f = true) _ konst_t _ _ _ _ _ _ (nt_fields_ok _ _ Ef) _ Em).
+      refine (nt_items_all (fun f y => conf_g o E y (sf_ty f)) (fun f => default_ok KNamed f = true) _ (konst_t E) _ _ _ _ _ _ (nt_fields_ok _ _ Ef) _ Em).
       + intros f c Hc. apply const_ty_conf. exact Hc.
       + intros rest r0 HG Hm. apply (nt_miss_ok rest r0 HG _ Hm).
       + intros f x y _ Hy. apply (Hprev n' eq_refl _ _ _ Hy).
@@ -313,21 +351,21 @@ Section Conform.
     intros IH H. rewrite ref_dec_unfold in H.
     destruct (sfind E _ c) as [k|] eqn:Ef; [|discriminate H].
     assert (Hseq: forall l, (forall x, In x l -> conf_ok x) ->
-              (r0 <- nt_items (fun f x => ref_dec E P x (sf_ty f)) konst_t (nt_exhausted (has_default (sc_fields k))) (sc_fields k) l ;;
+              (r0 <- nt_items (fun f x => ref_dec E P x (sf_ty f)) (konst_t E) (nt_exhausted (has_default (sc_fields k))) (sc_fields k) l ;;
                Ok (VNT c r0)) = Ok r -> conf_g o E r (SNamed c) = true).
     { intros l IHl H0.
       match type of H0 with (bind ?X _ = _) => destruct X as [l0|] eqn:Em end; [|discriminate H0]. cbn [bind] in H0. inversion H0.
       rewrite conf_unfold. rewrite String.eqb_refl, Ef. cbn [andb].
-      refine (nt_items_all (fun f y => conf_g o E y (sf_ty f)) (fun f => default_ok KNamed f = true) _ konst_t _ _ _ _ _ _ (nt_fields_ok _ _ Ef) _ Em).
+      refine (nt_items_all (fun f y => conf_g o E y (sf_ty f)) (fun f => default_ok KNamed f = true) _ (konst_t E) _ _ _ _ _ _ (nt_fields_ok _ _ Ef) _ Em).
       + intros f c0 Hc. apply const_ty_conf. exact Hc.
       + intros rest r0 HG Hm. apply (nt_miss_ok rest r0 HG _ Hm).
       + intros f x y Hx Hy. apply (IHl x Hx _ _ Hy). }
-    assert (Hoth: (r0 <- nt_tail konst_t (fun _ => Exn XTypeError) (sc_fields k) ;; Ok (VNT c r0)) = Ok r ->
+    assert (Hoth: (r0 <- nt_tail (konst_t E) (fun _ => Exn XTypeError) (sc_fields k) ;; Ok (VNT c r0)) = Ok r ->
                   conf_g o E r (SNamed c) = true).
     { intros H0.
       match type of H0 with (bind ?X _ = _) => destruct X as [l0|] eqn:Em end; [|discriminate H0]. cbn [bind] in H0. inversion H0.
       rewrite conf_unfold. rewrite String.eqb_refl, Ef. cbn [andb].
-      refine (nt_tail_all (fun f y => conf_g o E y (sf_ty f)) (fun f => default_ok KNamed f = true) konst_t _ _ _ _ _ (nt_fields_ok _ _ Ef) Em).
+      refine (nt_tail_all (fun f y => conf_g o E y (sf_ty f)) (fun f => default_ok KNamed f = true) (konst_t E) _ _ _ _ _ (nt_fields_ok _ _ Ef) Em).
       + intros f c0 Hc. apply const_ty_conf. exact Hc.
       + intros rest r0 _ Hm. discriminate Hm. }
     destruct d; try (apply Hoth; exact H).
@@ -382,7 +420,7 @@ Section Conform.
     all: try solve [ first [ apply (dec_str_conf _ (SList t') _ _ H) | apply (dec_str_conf _ (SSet fr' t') _ _ H)
                            | apply (dec_str_conf _ (STupleVar t') _ _ H) | apply (dec_str_conf _ (STupleFix ts) _ _ H) ] ].
     (* fixed tuple / dataclass given a non-sequence / non-mapping *)
-    all: try solve [ destruct (none_tail_t ts) as [r0|] eqn:En; [|discriminate H]; cbn [bind] in H; inversion H;
+    all: try solve [ destruct (none_tail_t E ts) as [r0|] eqn:En; [|discriminate H]; cbn [bind] in H; inversion H;
                      rewrite conf_unfold; apply (none_tail_conf ts r0 En) ].
     all: try solve [ destruct (sfind E _ c') as [k0|] eqn:Ef; [|discriminate H];
                      first [ apply (dec_str_conf _ (SData c') _ _ H) | discriminate H ] ].
